@@ -280,7 +280,7 @@ pub(crate) struct NotificationProtocol {
     executor: Arc<dyn Executor>,
 
     /// Pending substream validations.
-    pending_validations: FuturesUnordered<BoxFuture<'static, (PeerId, ValidationResult)>>,
+    pending_validations: FuturesUnordered<BoxFuture<'static, Option<(PeerId, ValidationResult)>>>,
 
     /// Timers for pending outbound substreams.
     timers: FuturesUnordered<BoxFuture<'static, PeerId>>,
@@ -1413,9 +1413,11 @@ impl NotificationProtocol {
                             let (tx, rx) = oneshot::channel();
                             self.pending_validations.push(Box::pin(async move {
                                 match rx.await {
-                                    Ok(ValidationResult::Accept) =>
-                                        (peer, ValidationResult::Accept),
-                                    _ => (peer, ValidationResult::Reject),
+                                    Ok(result) => Some((peer, result)),
+                                    // the sender is only dropped when a newer validation request
+                                    // for the peer replaced this one in `NotificationHandle`:
+                                    // that is not a verdict on the newer inbound substream
+                                    Err(_) => None,
                                 }
                             }));
 
@@ -1795,14 +1797,16 @@ impl NotificationProtocol {
                 }
             },
             result = self.pending_validations.select_next_some(), if !self.pending_validations.is_empty() => {
-                if let Err(error) = self.on_validation_result(result.0, result.1).await {
-                    tracing::debug!(
-                        target: LOG_TARGET,
-                        peer = ?result.0,
-                        result = ?result.1,
-                        ?error,
-                        "failed to handle validation result",
-                    );
+                if let Some(result) = result {
+                    if let Err(error) = self.on_validation_result(result.0, result.1).await {
+                        tracing::debug!(
+                            target: LOG_TARGET,
+                            peer = ?result.0,
+                            result = ?result.1,
+                            ?error,
+                            "failed to handle validation result",
+                        );
+                    }
                 }
             }
 
